@@ -62,7 +62,8 @@ GenInternal ==
   \/ Do([a |-> "RunRUnlock"], RunRUnlock, {})
   \/ Do([a |-> "RunUpdAcq"], RunUpdAcq, {}) \/ Do([a |-> "RunUpdBody"], RunUpdBody, {})
   \/ \E w \in Waiters :
-       \/ Do([a |-> "RunSend", w |-> w], RunSend(w), {})
+       \/ (\* a caller bound to its receive branch takes the unread head before the next one can replace it
+           ~(FixNotify /\ ch[w] # <<>> /\ commit[w] = "recv") /\ Do([a |-> "RunSend", w |-> w], RunSend(w), {}))
        \/ Do([a |-> "WSubAnn", w |-> w], WSubAnn(w), {}) \/ Do([a |-> "WSubAcq", w |-> w], WSubAcq(w), {})
        \/ Do([a |-> "WSubRead", w |-> w], WSubRead(w), {}) \/ Do([a |-> "WSubBody", w |-> w], WSubBody(w), {})
        \/ (commit[w] = "recv" /\ Do([a |-> "WRecv", w |-> w], WRecv(w), {w}))
@@ -87,7 +88,13 @@ SimStep == \E r \in {RandomElement(1..100)} :
              IF ENABLED Kind(r) THEN Kind(r)
              ELSE IF ENABLED GenInternal THEN GenInternal
              ELSE IF ENABLED GenTick /\ r <= 90 THEN GenTick ELSE GenStep
-GenNext == Len(hist) < Depth /\ (Mode = "cex" => ~Bad) /\ (IF Mode = "sim" THEN SimStep ELSE GenStep)
+\* With SetMasterHead publishing after the unlock (FixSetHead) there is no hook - hence no gate - between setting the
+\* head and the send: the real goroutine sends as soon as the channel has room.  Scripts of that variant therefore
+\* take SmhSend as soon as it is enabled (again a restriction to behaviours a replayer can force, nothing is added).
+SendUrgent == FixSetHead /\ \E k \in Conns : G_SmhSend(k)
+GenUrgent  == \E k \in Conns : Do([a |-> "SmhSend", k |-> k], SmhSend(k), {})
+GenNext == Len(hist) < Depth /\ (Mode = "cex" => ~Bad)
+           /\ (IF SendUrgent THEN GenUrgent ELSE IF Mode = "sim" THEN SimStep ELSE GenStep)
 GenSpec == GenInit /\ [][GenNext]_gvars
 
 Class == IF WedgedOnNotify THEN "wedged-notify" ELSE IF Wedged THEN "wedged-other"
